@@ -57,7 +57,25 @@ EscTab == (   "\"O,F\"" :> "\\\"O,F\\\""
           @@ "'x'" :> "'x'"
           @@ "'\\''" :> "'\\\\''"
           @@ "\"a\\\\\\\"b\"" :> "\\\"a\\\\\\\\\\\\\\\"b\\\""
-          @@ "\"a=b\"" :> "\\\"a=b\\\"" )
+          @@ "\"a=b\"" :> "\\\"a=b\\\""
+          @@ "\"x\"" :> "\\\"x\\\"" )
+\* the identifiers spelled inside each literal (they are not macro names or parameters there)
+LitIds == (   "\"O,F\"" :> {"F", "O"}
+          @@ "'F'" :> {"F"}
+          @@ "\"a\\n\"" :> {"a"}
+          @@ "\"G(1)\"" :> {"G"}
+          @@ "'\"'" :> {}
+          @@ "\"a\\\\\"" :> {"a"}
+          @@ "'\\\\'" :> {}
+          @@ "\"\\\"\"" :> {}
+          @@ "\"a,b\"" :> {"a", "b"}
+          @@ "\"a)b\"" :> {"a", "b"}
+          @@ "\"(\"" :> {}
+          @@ "'x'" :> {"x"}
+          @@ "'\\''" :> {}
+          @@ "\"a\\\\\\\"b\"" :> {"a", "b"}
+          @@ "\"a=b\"" :> {"a", "b"}
+          @@ "\"x\"" :> {"x"} )
 Markers == {"$U", "$A", "$P", "$X", "$M"}
 
 ClassOf(s) == IF s \in DOMAIN ExtClass THEN ExtClass[s]
@@ -170,6 +188,8 @@ ArityOK(d, ap) == IF d.va THEN Len(ap) >= Len(d.params) ELSE Len(ap) = Len(d.par
 \*                is replaced while an argument of another invocation is being replaced
 \*   pasteempty   ## whose left operand is a parameter with an empty argument (placemarker), the
 \*                right operand is not empty and tokens precede the left operand
+\*   litparam     the replacement list of the invoked function-like macro contains a string or
+\*                character literal in which the name of one of its parameters is spelled
 \*   hidearg      an invocation of a function-like macro M is replaced while an argument of an
 \*                enclosing invocation of M is being replaced, other than directly in an argument
 \*                of a source-line invocation of M
@@ -244,7 +264,8 @@ Subst(D, is, cx, os, ev) ==
       THEN LET a == Expand(D, Select(d, ap, h), Append(cx.encl, cx.m)) IN      \* argument completely replaced in isolation
            IF HasMarker(a.ts) THEN R(<<Last(a.ts)>>, ev)             \* no value: the whole line has none
            ELSE Subst(D, r, cx, os \o a.ts, ev \cup a.ev \cup Ev(ArgPaint(D, cx.hs, a.ts), "argpaint"))
-    ELSE Subst(D, r, cx, Append(os, Tok(h)), ev)
+    ELSE Subst(D, r, cx, Append(os, Tok(h)),
+               ev \cup Ev(d.fn /\ h \in DOMAIN LitIds /\ (\E id \in LitIds[h] : IsParam(d, id)), "litparam"))
 
 Expand(D, ts, encl) ==
   IF ts = <<>> THEN R(<<>>, {})
